@@ -18,8 +18,19 @@ from jaxley.utils.cell_utils import params_to_pstate
 def rand_view(mod, rng, kind):
     """returns (view, description).  Views that exclude the last compartment are frequent."""
     n = mod.nodes.shape[0]
-    how = str(rng.choice(["branch", "comp", "cell", "select", "group", "channel", "all"]))
+    how = str(rng.choice(["branch", "comp", "cell", "select", "group", "channel", "all", "branches-unequal", "branches-unequal", "group-branches"]))
     try:
+        if how == "branches-unequal" and kind != "branch":
+            # one parameter per branch, branches of different size, the module's last branch not among them: padded index groups
+            sizes = mod.nodes.groupby("global_branch_index").size()
+            nb = len(sizes)
+            cand = list(range(nb - 1)) if nb > 2 else list(range(nb))
+            idx = sorted(rng.choice(cand, size=int(rng.integers(2, len(cand) + 1)), replace=False).tolist()) if len(cand) >= 2 else cand
+            return mod.scope("global").branch(idx).scope("local"), dict(how="branch", idx=idx)
+        if how == "group-branches" and kind != "branch":
+            idx = sorted(rng.choice(n - 1 if n > 2 else n, size=int(rng.integers(1, max(2, n - 1))), replace=False).tolist())
+            mod.select(nodes=idx).add_to_group("g")
+            return mod.g.branch("all"), dict(how="group-branches", idx=idx)
         if how == "branch":
             nb = int(mod.nodes.global_branch_index.max()) + 1
             idx = sorted(rng.choice(nb, size=int(rng.integers(1, nb + 1)), replace=False).tolist())
@@ -163,26 +174,31 @@ def run(args):
         if not all((a == b) or (math.isnan(a) and math.isnan(b)) for a, b in zip(impl, model)):
             R.disagree("scattered-array", input=inp, impl=impl, model=model)
     # ---------- edge keys: set == data_set == trainable, exact selection (networks with two synapse types)
-    for t in range(max(3, nm // 6)):
-        net, desc = random_network(rng, syn_types=["IonotropicSynapse", "TestSynapse"], nsyn=int(rng.integers(2, 6)))
-        ne = len(net.edges)
-        typ = str(net.edges["type"].iloc[int(rng.integers(0, ne))])
-        key = {"IonotropicSynapse": "IonotropicSynapse_gS", "TestSynapse": "TestSynapse_gC"}[typ]
-        rows = net.edges.index[net.edges["type"] == typ].to_numpy()
-        sel = sorted(rng.choice(rows, size=int(rng.integers(1, len(rows) + 1)), replace=False).tolist())
-        view = net.select(edges=sel)
-        val = float(rng.uniform(1e-4, 1e-3))
-        R.evaluations += 1
-        inp = dict(module=desc, edges=sel, key=key)
-        m2 = __import__("copy").deepcopy(net); m2.select(edges=sel).set(key, val); a_set = arrays(m2, [])
-        a_ds = arrays(net, view.data_set(key, val, None))
-        net.delete_trainables(); view.make_trainable(key, verbose=False)
-        p = [{key: jnp.full_like(net.get_parameters()[-1][key], val)}]
-        a_tr = arrays(net, params_to_pstate(p, net.indices_set_by_trainables))
-        for name, a in (("data_set", a_ds), ("make_trainable", a_tr)):
-            if not np.array_equal(a[key], a_set[key]):
-                R.spec_fail(dict(kind="edge-route-differs", route=name), f"{name}({key}) on edges {sel} differs from set(): {a[key].tolist()} vs {a_set[key].tolist()}", inp, a[key].tolist())
-        net.delete_trainables()
+    KEYS = {"IonotropicSynapse": ["IonotropicSynapse_gS", "IonotropicSynapse_s", "IonotropicSynapse_k_minus"], "TestSynapse": ["TestSynapse_gC", "TestSynapse_c"]}
+    for t in range(max(5, nm // 6)):
+        net, desc = random_network(rng, syn_types=["IonotropicSynapse", "TestSynapse"], nsyn=int(rng.integers(3, 7)))
+        for typ in sorted(set(net.edges["type"])):
+            rows = net.edges.index[net.edges["type"] == typ].to_numpy()
+            R.count("edge-type-interleaved" if rows.tolist() != list(range(len(rows))) else "edge-type-first-block")
+            # every parameter AND initial synaptic state of the type (both are stored per synapse type)
+            for key in KEYS[typ]:
+                sel = sorted(rng.choice(rows, size=int(rng.integers(1, len(rows) + 1)), replace=False).tolist())
+                view = net.select(edges=sel)
+                val = float(rng.uniform(1e-4, 1e-3)) if key.endswith(("gS", "gC")) else float(rng.uniform(0.2, 0.8))
+                R.evaluations += 1
+                inp = dict(module=desc, edges=sel, key=key)
+                m2 = __import__("copy").deepcopy(net); m2.select(edges=sel).set(key, val); a_set = arrays(m2, [])
+                a_ds = arrays(net, view.data_set(key, val, None))
+                net.delete_trainables(); view.make_trainable(key, verbose=False)
+                p = [{key: jnp.full_like(net.get_parameters()[-1][key], val)}]
+                a_tr = arrays(net, params_to_pstate(p, net.indices_set_by_trainables))
+                for name, a in (("data_set", a_ds), ("make_trainable", a_tr)):
+                    if not np.array_equal(a[key], a_set[key]):
+                        R.spec_fail(dict(kind="edge-route-differs", route=name, state=key.endswith(("_s", "_c"))), f"{name}({key}) on edges {sel} differs from set(): {a[key].tolist()} vs {a_set[key].tolist()}", inp, a[key].tolist())
+                net.write_trainables(p)
+                if not np.array_equal(net.edges.loc[rows, key].to_numpy(), a_set[key]):
+                    R.spec_fail(dict(kind="write_trainables", edge=True), f"write_trainables({key}) on edges {sel}: table {net.edges.loc[rows, key].tolist()} differs from set() {a_set[key].tolist()}", inp, None)
+                net.delete_trainables()
     R.explanation = "scatter/padding/order theorems on the model; index groups and scattered arrays compared bit-exactly with the implementation"
     R.assumptions = ["JAX scatter semantics (out-of-bounds dropped, rows applied in order) are restated in the model and exercised on every run"]
     R.extra["driver_lines"] = drv.lines
@@ -197,6 +213,8 @@ def rebuild_view(mod, vdesc):
         return mod.scope("global").comp(vdesc["idx"]).scope("local")
     if how == "cell":
         return mod.cell(vdesc["idx"])
+    if how == "group-branches":
+        return mod.g.branch("all")
     if how == "select":
         return mod.select(nodes=vdesc["idx"])
     if how == "group":
